@@ -22,8 +22,20 @@ pub struct Corpus {
     pub call_async: CallAsyncFn,
 }
 
+static ACTIVE: std::sync::OnceLock<Corpus> = std::sync::OnceLock::new();
+
+/// The corpus all checks drive: the static macro corpus, unless a generated program
+/// installed its own functions with `set_corpus` at start-up (C19 program tier).
 pub fn static_corpus() -> Corpus {
-    Corpus { funcs: vcorpus::FUNCS, call: vcorpus::call, call_async: vcorpus::call_async }
+    *ACTIVE.get_or_init(|| Corpus { funcs: vcorpus::FUNCS, call: vcorpus::call, call_async: vcorpus::call_async })
+}
+
+pub fn set_corpus(c: Corpus) {
+    let _ = ACTIVE.set(c);
+}
+
+pub fn is_generated_corpus() -> bool {
+    !std::ptr::eq(static_corpus().funcs.as_ptr(), vcorpus::FUNCS.as_ptr())
 }
 
 impl Corpus {
